@@ -120,7 +120,9 @@ pub fn analyze_structure(ast: &Node, input: &[char], entries: &[AEntry]) -> Opti
                             a = parents[a];
                         }
                         if !ok {
-                            return Some(format!("group {} reported inside group {}, which does not enclose it in the pattern", nr, parent));
+                            let mut t = String::new();
+                            engine::mentry_text(inner, &mut t);
+                            return Some(format!("{} {} reported inside group {}, which does not enclose it in the pattern", if t.is_empty() { "empty group" } else { "group" }, nr, parent));
                         }
                         if *nr <= *last && parent == 0 && false {
                             return Some("group numbers not increasing".to_string());
@@ -367,7 +369,7 @@ fn ref_check_inner(c: &Case, obs: &mut Obs, w: Wants) -> Result<Outcome, Outcome
                                 if present != participated {
                                     return Ok(Outcome::Violated(vec![Finding::new(
                                         "analyze_group_presence",
-                                        format!("group {} {}", g, if present { "present" } else { "absent" }),
+                                        format!("{} {}", if present { "empty group" } else { "group" }, if present { format!("{} present", g) } else { format!("{} absent", g) }),
                                         format!("group {} {}", g, if participated { "participated (entry expected, possibly empty)" } else { "did not participate (no entry expected)" }),
                                     )]));
                                 }
